@@ -182,8 +182,8 @@ func VfC15Duplex() {
 	if vf.Bool() {
 		seq := vf.U32()
 		c, err := s.In(seq, prio)
-		if err == nil && vfKeyID(c) == vfKeyID(s.inCipher) {
-			_ = s.Check(seq, prio)
+		if err == nil && c != nil {
+			_ = s.Check(seq, prio) // the frame authenticated under the key In handed out
 		}
 		if vfKeyID(s.inCipher) != 1 {
 			vf.Reach("in-key-rolled")
@@ -202,4 +202,32 @@ func VfC15Duplex() {
 	vf.Assert(s.reglSeqHandler.highest == rh && s.reglSeqHandler.bitMap == rb, "sending-changed-the-regular-receive-window")
 	vf.Assert(s.prioSeqHandler.highest == ph && s.prioSeqHandler.bitMap == pb, "sending-reset-the-priority-receive-window-under-an-unchanged-in-key")
 	vf.Reach("sent")
+}
+
+// VfC15Inject: a frame that does NOT authenticate (forged, or a late frame of
+// another key epoch) is offered to a receiver in an arbitrary state -
+// including the last 256 numbers before the regular sequence wraps, where a
+// small sequence number announces the sender's next key. Whatever cipher In
+// hands out for it, since the AEAD then rejects the bytes and Check is never
+// called, nothing about the receiver may change: same in key, same receive
+// windows in both classes. (Otherwise one injected frame switches the
+// receiver to the next key before the sender gets there and the intact frames
+// still under way are lost.)
+func VfC15Inject() {
+	rcv := VfEncSession(vf.NewAEAD(2), vf.NewAEAD(9))
+	rcv.inKey = []byte{2}
+	rcv.reglSeqHandler.highest, rcv.reglSeqHandler.bitMap = vf.U32(), vf.U64()
+	rcv.prioSeqHandler.highest, rcv.prioSeqHandler.bitMap = vf.U32(), vf.U64()
+	w0 := rcv.VfSeqSnap()
+	near := rcv.reglSeqHandler.highest >= rolloverUpperBound
+	seq, prio := vf.U32(), vf.Bool()
+	c, err := rcv.In(seq, prio)
+	_ = c // the AEAD open with this cipher fails: Check is not called
+	vf.Assert(vfKeyID(rcv.inCipher) == 2 && len(rcv.inKey) == 1 && rcv.inKey[0] == 2, "in-key-rolled-by-a-frame-that-did-not-authenticate")
+	vf.Assert(rcv.VfSeqSnap() == w0, "receive-window-changed-by-a-frame-that-did-not-authenticate")
+	if err == nil && near && !prio && seq <= rolloverLowerBound {
+		vf.Assert(vfKeyID(c) == 102, "next-epoch-frame-not-offered-the-next-key")
+		vf.Reach("next-epoch-candidate")
+	}
+	vf.Reach("done")
 }
